@@ -66,6 +66,9 @@ def load(s):
 
 
 # --------------------------------------------------------------------------
+XCHECK = []   # sample of (input line, raw output line) pairs seen by run_model
+
+
 def run_model(lines, jobs=None, timeout=900):
     """Run modelrun over a list of input lines (strings) -> list of parsed outputs."""
     if not lines:
@@ -92,6 +95,7 @@ def run_model(lines, jobs=None, timeout=900):
     for t in ths:
         t.join()
     out = [None] * len(lines)
+    raw = [None] * len(lines)
     for i in range(jobs):
         if procs[i].returncode != 0:
             raise RuntimeError('modelrun exited with %r' % procs[i].returncode)
@@ -100,6 +104,13 @@ def run_model(lines, jobs=None, timeout=900):
             raise RuntimeError('modelrun produced %d lines for %d inputs' % (len(res), len(chunks[i])))
         for j, _ in enumerate(chunks[i]):
             out[i + j * jobs] = load(res[j])
+            raw[i + j * jobs] = res[j]
+    # keep a spread sample (input line, raw output line) for the thorough tier's
+    # in-Coq cross-check of extraction + driver (check: xcheck_extraction)
+    n = len(lines)
+    for k in sorted({(i * (n - 1)) // 39 for i in range(40)}):
+        if len(XCHECK) < 240 and len(lines[k]) <= 1200 and len(raw[k]) <= 4000:
+            XCHECK.append((lines[k], raw[k]))
     return out
 
 
